@@ -61,6 +61,28 @@ def strip_case(case):
     return c
 
 
+def end_label_finding_shape(case, issue):
+    """the recorded finding 'end label captured by the proxy' is recognised on the input: the block that carries the end
+    label belongs to no function (two function-less blocks are never 'in the same function', so the empty tail cannot be
+    joined back), or a request puts a patch that ends in a label at that block's end"""
+    m = re.search(r"symbol (\S+) \(end of a block\)", issue.get("msg", ""))
+    if not m:
+        return True
+    name = m.group(1)
+    flat = emodify.flat_of(json.loads(json.dumps(case)))
+    idx = next((i for i, d in enumerate(flat) if any(y["name"] == name and y.get("at_end") for y in d.get("syms", []))), None)
+    if idx is None:
+        return True         # not a label of the input (a patch's own label): the other recorded shape
+    d = flat[idx]
+    if d.get("func") is None:
+        return True
+    for e in case.get("edits", []):
+        asm = (e.get("asm") or "").strip().splitlines()
+        if e.get("block") == idx and asm and asm[-1].strip().endswith(":"):
+            return True
+    return False
+
+
 def trailing_label_finding(case, o, issue):
     """Is this C02 issue the recorded finding?  The label ends a patch that reaches
     the end of its block, later requests insert at that same end, and the label is
@@ -431,7 +453,7 @@ class Campaign:
                 sig = "%s:%s" % (self.facet, issue["kind"])
                 if self.facet == "C02" and trailing_label_finding(case, o, issue):
                     sig = "C02:" + SIG_TRAILING_LABEL
-                if self.facet == "C02" and issue["kind"] == "end-label-on-proxy":
+                if self.facet == "C02" and issue["kind"] == "end-label-on-proxy" and end_label_finding_shape(case, issue):
                     sig = "C02:" + SIG_END_LABEL_PROXY
                 if self.facet == "C03":
                     k3 = c03_known(case, o, issue)
